@@ -16,7 +16,7 @@ RULE = ("every history of <= D network events at a real TCPPacketGenerator whose
         "(start state, history, window trajectory)")
 ASSUMPTIONS = [
     "reference = the statement's rules, evaluated with the same float formulas, relative tolerance 1e-9",
-    "left open by the statement and accepted either way: whether further duplicate ACKs retransmit again, whether new data is "
+    "left open by the statement and accepted either way: the order in which several timers due at one instant fire, whether further duplicate ACKs retransmit again, whether new data is "
     "sent while duplicate ACKs inflate the window (only 'never beyond the window' is checked), CUBIC's epoch bookkeeping on a "
     "fast retransmit (taken as the code has it; the per-ACK update is the CUBIC paper's pseudo-code in bytes, and because cwnd only moves once cwnd_cnt exceeds cnt, the public pacing figures cnt / cwnd_cnt / W_tcp are compared too)",
 ]
@@ -302,7 +302,9 @@ def execute(ch, cfg):
                 bad.append(("C17.timeout", tag + ":timer-expiry-did-not-retransmit-the-segment", "history %r: at t=%r retransmitted %r, timers due %r" % (hist, when, retx, due)))
                 return
             check_new_segments(n0, "before timer expiry", before=when)     # data handed over by the application meanwhile
-            for s in due:
+            # several timers due at one instant fire in the order their expiries were scheduled (kernel order), which the
+            # statement does not fix: the reference follows the observed order (each expiry doubles the RTO the next one uses)
+            for s in [r[1] for r in retx]:
                 ref.timeout(s, when)
             check_new_segments(n0, "timer expiry")
             compare("retransmission-timeout", "C17.timeout")
